@@ -250,3 +250,62 @@ def run(ctx, rep):
         if t.op == 'br' and len(t.ops) == 3 and 'force_nocopy' in m.expr(t.ops[0]) and t.ops[2][1] in dm:
             rej += 1
     rep.check(rej >= 3, 'R-C19-6', 'main rejects -N together with -h / -F / -R', m.file, '%d rejecting tests' % rej, function='main', construct='option conflict')
+
+    # move detection by inode is only sound while the recorded inodes are still meaningful: the site that discards them before a
+    # scan and the site that decides whether a found inode is trusted must look at the same disk conditions
+    import re as _re
+    rep.rule('R-C19-8', 'inode trust: the conditions under which scan discards the recorded inodes (volatile inodes, changed UUID, unsupported UUID) are the same at the discarding site and in scan_file', 1)
+    def disk_flags(f, o, seen=None, depth=0):
+        """disk->has_* members an i1/i32 value depends on (through the short-circuit phis of a || / && chain)"""
+        seen = set() if seen is None else seen
+        o = f.strip(o)
+        res = set()
+        if o[0] != 'i' or o[1] in seen or depth > 12:
+            return res
+        seen.add(o[1])
+        i = f.insts[o[1]]
+        m_ = _re.search(r'disk->(has_\w+)$', f.expr(o)) if i.op == 'load' else None
+        if m_:
+            return {m_.group(1)}
+        if i.op == 'phi':
+            # the branch conditions of the predecessors take part in the value
+            for pb in i.inc:
+                t = f.term(pb)
+                if t.op == 'br' and len(t.ops) == 3:
+                    res |= disk_flags(f, t.ops[0], seen, depth + 1)
+        for a_ in i.ops:
+            res |= disk_flags(f, a_, seen, depth + 1)
+        return res
+    sfile = P.fn('scan_file')
+    trust = set()
+    for i in sfile.all_insts():
+        if i.op == 'store' and sfile.inst_of(i.ops[1]) is not None and sfile.inst_of(i.ops[1]).op == 'alloca':
+            fl = disk_flags(sfile, i.ops[0])
+            if len(fl) >= 2:
+                trust |= fl
+    # the discarding site: the function (other than scan_file) that clears file->inode in a loop
+    disc = set(); where = None
+    for g_ in P.defined():
+        if not (g_.file or '').endswith('scan.c') or g_ is sfile:
+            continue
+        for st_ in g_.all_insts():
+            if st_.op == 'store' and g_.expr(st_.ops[1]).lstrip('&') == 'file->inode' and g_.const_of(st_.ops[0]) == 0 and g_.loop_of(st_.block) is not None:
+                where = g_
+                h_ = g_.loop_of(st_.block)
+                # conditions that decide whether the loop is entered: the cluster of flag tests (an || chain compiles to one branch per
+                # flag) that lies before the loop and from which the loop can be reached
+                pre = set()
+                for b in range(len(g_.blocks)):
+                    if b == h_ or b in g_.loops[h_]:
+                        continue
+                    t = g_.term(b)
+                    if t.op == 'br' and len(t.ops) == 3 and g_.blocks[h_][0].id in g_.reach([t]):
+                        fl = disk_flags(g_, t.ops[0])
+                        if fl and len(fl) == 1:
+                            # one of its outcomes enters the loop region without another flag test being able to veto it
+                            pre.add(b); disc |= fl
+    if not trust or where is None:
+        raise AnalysisBroken('inode trust sites not found (trust flags %s, discarding site %s)' % (sorted(trust), where and where.name))
+    rep.check(trust == disc, 'R-C19-8', 'scan_file and %s agree on when recorded inodes are not trusted' % base(where.name), where.file,
+              'both test %s' % sorted(trust) if trust == disc else 'scan_file tests %s, the discarding site tests %s: with the missing condition stale inode numbers stay in the inode set and an unrelated file can be taken as moved' % (sorted(trust), sorted(disc)),
+              function=base(where.name), construct='inode trust conditions')
